@@ -581,6 +581,11 @@ impl<'a, Editor> CommandRunner<'a, Editor> {
                 if let Some(clear_fn) = self.clear.as_mut() {
                     let _ = clear_fn(editor);
                 }
+                // The session starts from scratch, and so does its history: a later `save`
+                // must not write the inputs of the discarded session
+                if let Some(session_history) = self.session_history.as_mut() {
+                    *session_history = SessionHistory::new();
+                }
                 CommandControlFlow::Reset
             }
             ParsedCommand::Quit => CommandControlFlow::Return,
